@@ -98,6 +98,30 @@ def _gen_cases(rng, tier):
 	]
 	for kind, s in directed:
 		cases.append({'k': 'frag', 'kind': kind, 's': s.hex(), 'cuts': [[], list(range(1, len(s)))] + streams.single_cuts(s, None if tier == 'thorough' else 100)})
+	# header lines and folded fields at boundary lengths (limits an implementation might have or get: 255/256, 4 kB, 8190..8192, 16 kB):
+	# whole, cut just before / inside / after the line end, and in coarse pieces
+	lengths = [255, 256, 1023, 1024, 4095, 4096, 8188, 8189, 8190, 8191, 8192] + ([16383, 16384, 65535, 65536] if tier == 'thorough' else [])
+	if tier != 'thorough':
+		lengths = sorted(set(rng.sample(lengths, 4) + [8190, 8191]))
+	for L in lengths:
+		for kind, head, tail in (('server', b'GET / HTTP/1.1\r\nHost: h\r\n', b'GET /2 HTTP/1.1\r\nHost: h\r\n\r\n'), ('client', b'HTTP/1.1 200 OK\r\nContent-Length: 0\r\n', b'HTTP/1.1 204 No Content\r\n\r\n')):
+			line = b'X-Long: ' + b'a' * (L - 8)
+			s = head + line + b'\r\n\r\n' + tail
+			e = len(head) + L
+			cuts = [[], [e - 1], [e], [e + 1], [e + 2], [e + 3], [e + 1, e + 3], list(range(1000, len(s), 1000))]
+			cases.append({'k': 'frag', 'kind': kind, 's': s.hex(), 'cuts': [c for c in cuts if all(0 < x < len(s) for x in c)]})
+			# the same total length as a folded field: physical lines of 60 octets
+			n = max(1, (L - 8) // 62)
+			folded = b'X-Fold: ' + b'\r\n '.join([b'b' * 60] * n)
+			s = head + folded + b'\r\n\r\n' + tail
+			e = len(head) + len(folded)
+			cuts = [[], [e], [e + 1], [e + 2], [e + 3], list(range(997, len(s), 997))]
+			cases.append({'k': 'frag', 'kind': kind, 's': s.hex(), 'cuts': [c for c in cuts if all(0 < x < len(s) for x in c)]})
+	# a request that asks for the connection to be closed, followed by more octets (pipelined request, garbage, truncated request)
+	for follow in (b'GET /2 HTTP/1.1\r\nHost: h\r\n\r\n', b'GARBAGE\r\n\r\n', b'GET /3 HTTP/1.1\r\nHo', b'POST /4 HTTP/1.1\r\nHost: h\r\nContent-Length: 3\r\n\r\nabc'):
+		for first in (b'GET / HTTP/1.1\r\nHost: h\r\nConnection: close\r\n\r\n', b'POST / HTTP/1.1\r\nHost: h\r\nconnection: Close\r\nContent-Length: 2\r\n\r\nab', b'GET / HTTP/1.0\r\n\r\n'):
+			s = first + follow
+			cases.append({'k': 'frag', 'kind': 'server', 's': s.hex(), 'cuts': [[], list(range(1, len(s)))] + streams.single_cuts(s, None if tier == 'thorough' else 60)})
 	if tier == 'thorough':
 		# all 2^(n-1) fragmentations of short streams over a message-skeleton alphabet
 		skel = [b'GET / HTTP/1.1\r\n', b'Host:x\r\n', b'\r\n', b'A:b\r\n', b'Content-Length:2\r\n', b'ab', b'Transfer-Encoding:chunked\r\n', b'1\r\nz\r\n', b'0\r\n\r\n', b'HTTP/1.1 200 OK\r\n', b'\r', b'\n', b' c\r\n']
